@@ -4,6 +4,8 @@
        ok = CreateFromBytes returned no error; buf = GetImgSlice(); rgb / gray = GetImgSliceRGB /
        GetImgSliceGray; imgF / imgT = (w h #rgba) of ConvertToImage(false / true);
        backF / backT = (W H #buf) of CreateFromImage(imgF / imgT)
+   (monoh ((W H #data pc bc) ...) ((ok pix16 ... backT) ...))   the same steps, one after another on ONE
+       MonoImg object; pc / bc = 1000: that setter is not called in that step
    (gfx ty W H #data tw th | png direct cimg)
        png    = (w h #rgba) decoded from ConvertGfxStateToPngBytes, or (pngerr n) / (err)
        direct = (w h #rgba) of RwpImgToImage(gfx, tw, th)
@@ -65,7 +67,9 @@ Definition run_mono (W H : Z) (data : list Z) (pc bc : Z) (obs : list sexp) : se
       let wib := (W + 7) / 8 in
       let pbuf := fpx (chunks buf) wib in
       let m0 := create_from_bytes W H data in
-      let m := set_bckg_color (set_pixel_color (fst m0) pc) bc in
+      (* 1000 = the setter is not called: the colour stays as the (re-)initialisation left it *)
+      let m1 := if pc =? 1000 then fst m0 else set_pixel_color (fst m0) pc in
+      let m := if bc =? 1000 then m1 else set_bckg_color m1 bc in
       (* --- the property, judged on the implementation's outputs --- *)
       if negb (bytes_ok buf && bytes_ok rgb && bytes_ok gray && (wib * H <=? zlen buf)) then spec "c17-shape" 0 0
       else if ((0 <=? pc) && (pc <? 64) && negb (pix16 =? rgb565_of_6bit pc)) || ((0 <=? bc) && (bc <? 64) && negb (bg16 =? rgb565_of_6bit bc))
@@ -94,6 +98,24 @@ Definition run_mono (W H : Z) (data : list Z) (pc bc : Z) (obs : list sexp) : se
     | _, _ => spec "c17-panic" W H
     end
   | _ => spec "c17-panic" W H
+  end.
+
+(* ---------- (monoh (steps) (observations)) : a history of steps on ONE object ----------
+   every step is judged like a fresh (mono ...) case: re-initialisation makes the object forget
+   everything, so the model of a step does not depend on the earlier ones; the first verdict that is not
+   ok is the history's verdict *)
+Definition verdict_ok (v : sexp) : bool :=
+  match v with L (S n :: _) => bytes_eqb n (str "ok") | _ => false end.
+Definition verdict_nontrivial (v : sexp) : bool :=
+  match v with L [S _; I b] => negb (b =? 0) | _ => false end.
+Fixpoint run_monoh (steps obss : list sexp) (k : Z) (nt : bool) : sexp :=
+  match steps, obss with
+  | [], [] => v_ok nt
+  | L [I W; I H; B data; I pc; I bc] :: ss, L obs :: os =>
+    if (W <? 0) || (H <? 0) || negb (bytes_ok data) then v_badcase else
+    let v := run_mono W H data pc bc obs in
+    if verdict_ok v then run_monoh ss os (k + 1) (nt || ((0 <? k) && verdict_nontrivial v)) else v
+  | _, _ => v_badcase
   end.
 
 (* ---------- (gfx ...) ---------- *)
@@ -215,6 +237,11 @@ Definition run_case (s : sexp) : sexp :=
       match rest with
       | I W :: I H :: B data :: I pc :: I bc :: obs =>
         if (W <? 0) || (H <? 0) || negb (bytes_ok data) then v_badcase else run_mono W H data pc bc obs
+      | _ => v_badcase
+      end
+    else if is "monoh" then
+      match rest with
+      | [L steps; L obss] => run_monoh steps obss 0 false
       | _ => v_badcase
       end
     else if is "gfx" then
